@@ -54,7 +54,7 @@ def fault_ops(cls, seed):
 
 CLASSES = ["garbage", "truncated", "notimestamp", "empty", "text", "close", "closeframe", "receipt_empty", "burst_receipt", "burst_fail",
            "idle", "unknown_type", "pose_nil", "action_nil", "asset_empty", "custom_huge", "dagaz_nil", "dagaz_nan", "chatty", "bad_join_ids"]
-LIFE = ["fresh", "alone", "full"]
+LIFE = ["fresh", "alone", "full", "switched"]
 
 
 def scenario(cls, life, seed):
@@ -62,9 +62,9 @@ def scenario(cls, life, seed):
     ops = [dict(op="dial", c=1), dict(op="dial", c=2), dict(op="dial", c=3)]
     idle = 250 if cls in ("idle", "chatty") else 60000
     ops += [J(3, 0, 1), dict(op="barrier", c=3)]          # session 1: the bystander
-    if life in ("alone", "full"):
+    if life in ("alone", "full", "switched"):
         ops += [J(1, 0, 2), dict(op="barrier", c=1)]        # session 2: the victim's
-    if life == "full":
+    if life in ("full", "switched"):
         ops += [J(2, 2, 3), dict(op="barrier", c=2),
                 R(1, k="EntityAdd", rid=10, persist=False, flag=0, px=1, ts=10),
                 R(1, k="EntityAdd", rid=11, persist=True, flag=0, px=1, ts=11),
@@ -74,11 +74,15 @@ def scenario(cls, life, seed):
                 R(1, k="Action", rid=17, eid=1, name="x", ats=1, data=1, ts=17), R(1, k="Action", rid=18, eid=2, name="x", ats=1, data=1, ts=18),
                 R(1, k="AssetAdd", rid=19, eid=1, asset="m", ts=19), R(1, k="AssetAdd", rid=20, eid=2, asset="m", ts=20),
                 dict(op="barrier", c=1), dict(op="barrier", c=2)]
+    if life == "switched":
+        # the victim moves on to a session of its own, with an update still parked in its scheduler
+        ops += [J(1, 0, 40), dict(op="barrier", c=1), R(1, k="EntityAdd", rid=41, persist=False, flag=0, px=1, ts=41),
+                R(1, k="Pose", eid=1, px=5, ts=42), R(1, k="Pose", eid=7, px=5, ts=43), dict(op="barrier", c=1), dict(op="barrier", c=2)]
     fops, kind = fault_ops(cls, seed)
     if cls in ("idle", "chatty"):
         # the witnesses must not idle out themselves: they keep pinging through barriers below
         pass
-    fops = [o for o in fops if not (o["op"] == "barrier_if" and life != "full")]
+    fops = [o for o in fops if not (o["op"] == "barrier_if" and life not in ("full", "switched"))]
     for o in fops:
         if o["op"] == "barrier_if":
             o["op"] = "barrier"
@@ -92,9 +96,9 @@ def scenario(cls, life, seed):
         ops += [dict(op="waitreturn", c=1, ms=4000)]
     else:
         ops += [dict(op="barrier", c=1, ms=3000)]
-    ops += [dict(op="barrier", c=2 if life == "full" else 3, ms=3000), dict(op="barrier", c=3, ms=3000)]
-    if life == "full":
-        ops += [dict(op="barrier", c=2, ms=3000)]
+    ops += [dict(op="barrier", c=2 if life in ("full", "switched") else 3, ms=3000), dict(op="barrier", c=3, ms=3000)]
+    if life in ("full", "switched"):
+        ops += [dict(op="sleep", ms=30), dict(op="barrier", c=2, ms=3000)]
     return dict(sid="%s/%s/%d" % (cls, life, seed), cls=cls, life=life, fatal=fatal,
                 config=dict(mods=MODS, idle_ms=idle, frame_ms=2), ops=ops)
 
@@ -111,7 +115,7 @@ def judge(sc, r):
             bad.append("op %d %s: %s" % (x["i"], x["op"], x["err"]))
     # the last ops are: [waitreturn|barrier victim], barrier witness, barrier 3, (barrier 2)
     tail = [x for x in r["results"] if x["op"] in ("waitreturn", "barrier")]
-    nb = 3 if sc["life"] == "full" else 2
+    nb = 3 if sc["life"] in ("full", "switched") else 2
     victim_op = tail[-(nb + 1)]
     if sc["fatal"]:
         if not victim_op.get("ok"):
@@ -129,7 +133,7 @@ def judge(sc, r):
     if any(e["ev"] == "handle" and "panic" in e.get("err", "") for e in evs):
         bad.append("panic")
     # the witness in the same session is told exactly once about each removed entity and about the departure
-    if sc["life"] == "full" and sc["fatal"]:
+    if (sc["life"] == "full" and sc["fatal"]) or sc["life"] == "switched":
         got = r["clients"].get("2", [])
         dels = sorted(m["eid"] for m in got if m["t"] == "ENTITY_DELETE_BROADCAST")
         leaves = [m for m in got if m["t"] == "LEAVE_BROADCAST"]
